@@ -18,6 +18,10 @@ type specEnv struct {
 	old   Heap
 	inOld bool
 	qdepth int
+	// two-state loop step clauses: state at the loop header of the current iteration
+	prev     Heap
+	prevVars map[string]Val
+	inPrev   bool
 }
 
 func (x *Enc) newSpecEnv(ci *clauseInfo, vars map[string]Val, heap, old Heap) *specEnv {
@@ -64,6 +68,9 @@ func (env *specEnv) typeOf(e ast.Expr) types.Type {
 func (env *specEnv) h() Heap {
 	if env.inOld {
 		return env.old
+	}
+	if env.inPrev {
+		return env.prev
 	}
 	return env.heap
 }
@@ -449,6 +456,27 @@ func (env *specEnv) call(e *ast.CallExpr) Val {
 			return Val{ts: []Term{implies(env.eval(e.Args[0]).ts[0], env.eval(e.Args[1]).ts[0])}}
 		case "verif_iff":
 			return Val{ts: []Term{eq(env.eval(e.Args[0]).ts[0], env.eval(e.Args[1]).ts[0])}}
+		case "verif_fresh":
+			// the reference was allocated during the call (above the allocation top at entry)
+			x.regKey(keyAlloc, "Int")
+			return Val{ts: []Term{app(">", env.eval(e.Args[0]).ts[0], x.hget(env.old, keyAlloc))}}
+		case "verif_prev":
+			if env.prevVars == nil {
+				return env.fail(e, "prev() outside a step clause")
+			}
+			savedP, savedV := env.inPrev, env.vars
+			env.inPrev = true
+			nv := map[string]Val{}
+			for k, v := range env.vars {
+				nv[k] = v
+			}
+			for k, v := range env.prevVars {
+				nv[k] = v
+			}
+			env.vars = nv
+			v := env.eval(e.Args[0])
+			env.inPrev, env.vars = savedP, savedV
+			return v
 		case "verif_old":
 			saved := env.inOld
 			env.inOld = true
